@@ -166,7 +166,7 @@ def cexCap : Inst :=
 theorem feasible_of_run_counterexample : ¬ feasible_of_run_statement := by
   intro h
   have := h cexCap [0, 0, 1, 2, 3, 4, 5] (exec env cexCap (env.reset cexCap) [0, 0, 1, 2, 3, 4, 5])
-    ⟨by decide, by decide, by decide, by decide, by decide⟩
+    ⟨by decide, by decide, by decide, by decide, by decide, by decide⟩
     (by intro d _; simp only [cexCap]; split <;> omega)
     ((run_iff_admitted _ _ _ _ _).2 ⟨by decide, rfl⟩) (by decide)
   revert this; unfold Feasible; decide
@@ -182,9 +182,22 @@ theorem feasible_of_run_uniform_counterexample :
         Run env i (env.reset i) as s → env.done i s = true → Feasible (problemOf i) as) := by
   intro h
   have := h cexHome [0, 0, 1, 3, 4, 0, 2] (exec env cexHome (env.reset cexHome) [0, 0, 1, 3, 4, 0, 2])
-    ⟨by decide, by decide, by decide, by decide, by decide⟩ (by intro d _; rfl)
+    ⟨by decide, by decide, by decide, by decide, by decide, by decide⟩ (by intro d _; rfl)
     ((run_iff_admitted _ _ _ _ _).2 ⟨by decide, rfl⟩) (by decide)
   revert this; unfold Feasible; decide
+
+/-- 2 depots, one order, start_mode "random" having drawn depot 1 -/
+def cexStart : Inst :=
+  { N := 4, K := 2, split0 := 3, KG := 2, cap := fun _ => 1,
+    D := fun _ _ => 1, openMode := false, wNum := 0, wDen := 1, start := 1 }
+
+/-- start_mode "random" (outside `WF`, which fixes `start = 0`): `_reset` sets `current_depot = 1` but forces
+the first action to node 0; the finished episode `[0,2,3,1]` starts depot 1's vehicle while the vehicle of
+depot 0 is still out. -/
+theorem feasible_of_run_random_start_counterexample :
+    ∃ s, Run env cexStart (env.reset cexStart) [0, 2, 3, 1] s ∧ env.done cexStart s = true ∧
+      ¬ Feasible (problemOf cexStart) [0, 2, 3, 1] :=
+  ⟨_, (run_iff_admitted _ _ _ _ _).2 ⟨by decide, rfl⟩, by decide, by unfold Feasible; decide⟩
 
 /-- Non-vacuity: the Spec accepts the corresponding solution in which the vehicle returns home. -/
 example : Feasible (problemOf cexHome) [0, 0, 1, 3, 4, 1, 2] := by unfold Feasible; decide
